@@ -130,7 +130,9 @@ def run(model, col, tier):
     outarg = [c for c in ast.walk(nslc.tree) if isinstance(c, ast.Call) and last_attr(c) == "add_argument" and any(isinstance(a, ast.Constant) and a.value == "--output" for a in c.args)]
     col.check(bool(outarg) and "FileType('wb')" in unparse(outarg[0]), "R17.2", "nslc.py::--output is opened 'wb'", "binary write", "the module file is not opened in binary write mode", "nslc.py", nslc.tree)
     opt = [v for d in ast.walk(nslc.tree) if isinstance(d, ast.Dict) for k, v in zip(d.keys, d.values) if isinstance(k, ast.Constant) and k.value == "optimize"]
-    col.check(bool(opt) and " ".join(unparse(opt[0]).split()) in ("args.opt_level > 0", "args.opt_level >= 1", "bool(args.opt_level)", "args.opt_level != 0", "0 < args.opt_level"), "R17.2", "nslc.py::optimisation switch", "-O maps to the optimize option", None, "nslc.py", nslc.tree)
+    import re as _re17
+
+    col.check(bool(opt) and bool(_re17.fullmatch(r"(\w+\.opt_level > 0|\w+\.opt_level >= 1|bool\(\w+\.opt_level\)|\w+\.opt_level != 0|0 < \w+\.opt_level|1 <= \w+\.opt_level)", " ".join(unparse(opt[0]).split()))), "R17.2", "nslc.py::optimisation switch", "-O maps to the optimize option", None, "nslc.py", nslc.tree)
     ld = model.cls(IR, "FilesystemModuleLoader").own_method("Load")
     loads = [c for c in ast.walk(ld) if isinstance(c, ast.Call) and dotted(c.func) == "pickle.load"]
     def _binary_open(a):
